@@ -1100,21 +1100,7 @@ class HttpPayloadParser:
         # Chunked transfer encoding parser
         elif self._type == ParseState.PARSE_CHUNKED:
             if self._chunk_tail:
-                # We should check the length is sane when not processing payload body.
-                if self._chunk != ChunkState.PARSE_CHUNKED_CHUNK:
-                    max_line_length = self._max_line_size
-                    if self._chunk == ChunkState.PARSE_TRAILERS:
-                        max_line_length = self._max_field_size
-                    # A trailing CR may be the first half of the line ending,
-                    # it does not count towards the length of the line.
-                    if (
-                        len(self._chunk_tail) - self._chunk_tail.endswith(b"\r")
-                        > max_line_length
-                    ):
-                        raise LineTooLong(
-                            self._chunk_tail[:100] + b"...", max_line_length
-                        )
-
+                # A partial line was measured before it was stored.
                 chunk = self._chunk_tail + chunk
                 self._chunk_tail = b""
 
@@ -1173,6 +1159,10 @@ class HttpPayloadParser:
                             )
                             self._set_payload_exception(exc)
                             raise exc
+                        # A trailing CR may be the first half of the line ending,
+                        # it does not count towards the length of the line.
+                        if len(chunk) - chunk.endswith(b"\r") > self._max_line_size:
+                            raise LineTooLong(chunk[:100] + b"...", self._max_line_size)
                         self._chunk_tail = chunk
                         self._paused = False
                         return PayloadState.PAYLOAD_NEEDS_INPUT, b""
@@ -1228,6 +1218,11 @@ class HttpPayloadParser:
                             )
                             self._set_payload_exception(exc)
                             raise exc
+                        # As above: the CR of a split line ending is not counted.
+                        if len(chunk) - chunk.endswith(b"\r") > self._max_field_size:
+                            raise LineTooLong(
+                                chunk[:100] + b"...", self._max_field_size
+                            )
                         self._chunk_tail = chunk
                         self._paused = False
                         return PayloadState.PAYLOAD_NEEDS_INPUT, b""
